@@ -9,6 +9,7 @@ import (
 	"encoding/binary"
 	"encoding/json"
 	"fmt"
+	"hash/fnv"
 	"io/ioutil"
 	"os"
 	"os/exec"
@@ -24,7 +25,14 @@ import (
 	"ionsim/scenario"
 )
 
-const verifDir = "/verif"
+// verifDir is where known_findings.json, evidence/, replays/ and work/ live: /verif, or the directory ionsim.sh
+// was started from (a snapshot made by `vp run`).
+var verifDir = func() string {
+	if d := os.Getenv("IONSIM_VERIF_DIR"); d != "" {
+		return d
+	}
+	return "/verif"
+}()
 
 func main() {
 	if len(os.Args) < 2 {
@@ -356,8 +364,11 @@ func spawn(self string, prop, tier string, seed uint64, w, W, start int, dir str
 	}
 	cmd := exec.Command(self, args...)
 	cmd.Env = append(os.Environ(), "GOMAXPROCS=2", "GOGC=100")
+	if v := os.Getenv("IONSIM_WORKER_GOMAXPROCS"); v != "" {
+		cmd.Env = append(cmd.Env, "GOMAXPROCS="+v)
+	}
 	cmd.Env = append(cmd.Env, spawnEnv...)
-	if prop == "C18" && len(spawnEnv) == 0 {
+	if prop == "C18" && len(spawnEnv) == 0 && os.Getenv("IONSIM_WORKER_GOMAXPROCS") == "" {
 		// part A hands control between parked goroutines at every seam call: one P keeps the hand-off on one thread
 		cmd.Env = append(cmd.Env, "GOMAXPROCS=1")
 	}
@@ -672,17 +683,39 @@ func check(prop, tier string) int {
 		"wall_s":      wall,
 		"violations":  len(violLines),
 	}
+	// run digest: everything a run observed that must not depend on worker count, GOMAXPROCS or process layout
+	dh := fnv.New64a()
+	for _, k := range scenario.SortedCounters(counters) {
+		fmt.Fprintf(dh, "%s=%d;", k, counters[k])
+	}
+	hl := make([]uint64, 0, len(hashes))
+	for h := range hashes {
+		hl = append(hl, h)
+	}
+	sort.Slice(hl, func(i, j int) bool { return hl[i] < hl[j] })
+	for _, h := range hl {
+		fmt.Fprintf(dh, "%x,", h)
+	}
+	for _, v := range viols {
+		fmt.Fprintf(dh, "%s@%d;", v.Signature, v.Index)
+	}
+	fmt.Fprintf(dh, "steps=%d", steps)
+	runDigest := fmt.Sprintf("%016x", dh.Sum64())
+	ev["run_digest"] = runDigest
 	eb, _ := json.MarshalIndent(ev, "", " ")
-	os.MkdirAll(filepath.Join(verifDir, "evidence"), 0755)
-	if err := ioutil.WriteFile(filepath.Join(verifDir, "evidence", prop+".json"), eb, 0644); err != nil {
-		fmt.Fprintln(os.Stderr, "cannot write evidence:", err)
-		infra = true
+	if os.Getenv("IONSIM_NO_EVIDENCE") == "" {
+		os.MkdirAll(filepath.Join(verifDir, "evidence"), 0755)
+		if err := ioutil.WriteFile(filepath.Join(verifDir, "evidence", prop+".json"), eb, 0644); err != nil {
+			fmt.Fprintln(os.Stderr, "cannot write evidence:", err)
+			infra = true
+		}
 	}
 
 	for _, k := range scenario.SortedCounters(counters) {
 		fmt.Printf("  %-60s %d\n", k, counters[k])
 	}
 	fmt.Printf("evaluations=%d distinct_nontrivial=%d io_steps=%d indices=%d wall=%.1fs\n", evals, len(hashes), steps, indices, wall)
+	fmt.Printf("RUN-DIGEST %s\n", runDigest)
 	for _, l := range knownLines {
 		fmt.Println(l)
 	}
